@@ -3,6 +3,7 @@
 // records one ndjson event per public call.  It never decides anything.
 
 mod field;
+mod hash;
 mod out;
 mod rng;
 
@@ -46,6 +47,7 @@ fn main() {
                 field::run(&mut tr, &mut rng, ty, &what, &plan);
             }
         }
+        "hash" => hash::run(&mut tr, &mut rng, &get("script", "")),
         _ => {
             eprintln!("unknown domain {}", domain);
             std::process::exit(2);
